@@ -7,6 +7,7 @@ import DilithiumVerif.Lemmas.ChallengeWeight
 import DilithiumVerif.Lemmas.UniformStream
 import DilithiumVerif.Lemmas.EtaStream
 import DilithiumVerif.Lemmas.SampleInBall
+import DilithiumVerif.Lemmas.FuelMono
 /-
   C17 — Samplers are the specification's functions of their seeds and stay in range.
   Part 1: the byte-level acceptance maps and their ranges.
@@ -133,5 +134,23 @@ open DV.SampleInBall in
     0xFF (rejected: > 254), 3, 7 -/
 example : sampleInBall 2 ([2, 0, 0, 0, 0, 0, 0, 0] ++ [0xFF, 3, 7]) =
     some ((((List.replicate 256 (0 : Int)).set 254 0).set 3 1).set 255 0 |>.set 7 (-1)) := by decide +kernel
+
+/-- **the block budget of the model's rejection loops is immaterial**: whenever ExpandA, ExpandS (either half) or
+    SampleInBall returns with budget `f`, it returns the same value with every larger budget. The constant `FUEL` with which
+    key generation, signing and verification call them therefore decides only whether the model gives up (an outcome the
+    Rust loops do not have), never what is returned. -/
+theorem sampler_budget_irrelevant (p : Params) (f d : Nat) :
+    (∀ rho m, matrix_expand p f rho = .ok m → matrix_expand p (f + d) rho = .ok m) ∧
+    (∀ seed nonce v, l_uniform_eta p f seed nonce = .ok v → l_uniform_eta p (f + d) seed nonce = .ok v) ∧
+    (∀ seed nonce v, k_uniform_eta p f seed nonce = .ok v → k_uniform_eta p (f + d) seed nonce = .ok v) ∧
+    (∀ seed c, poly_challenge p f seed = .ok c → poly_challenge p (f + d) seed = .ok c) ∧
+    (∀ seed nonce a, poly_uniform f seed nonce = .ok a → poly_uniform (f + d) seed nonce = .ok a) ∧
+    (∀ lv seed nonce a, poly_uniform_eta lv f seed nonce = .ok a → poly_uniform_eta lv (f + d) seed nonce = .ok a) :=
+  ⟨fun rho m h => FuelMono.matrix_expand_mono p f rho m h d,
+   fun seed nonce v h => (FuelMono.uniform_eta_vec_mono p f seed nonce v d).1 h,
+   fun seed nonce v h => (FuelMono.uniform_eta_vec_mono p f seed nonce v d).2 h,
+   fun seed c h => FuelMono.poly_challenge_mono p f seed c h d,
+   fun seed nonce a h => FuelMono.poly_uniform_mono f seed nonce a h d,
+   fun lv seed nonce a h => FuelMono.poly_uniform_eta_mono lv f seed nonce a h d⟩
 
 end DV.C17
